@@ -90,7 +90,9 @@ def do_unroll(ctx, tx, cid, spec, NS):
     for state_io in ps:
         for n in NS:
             det = {"case": cid, "circuit": spec if len(spec["nodes"]) < 25 else None, "state_io": state_io, "n": n}
-            res, e = call(tx.unroll, build(spec), n, dict(state_io))
+            carg = build(spec)
+            res, e = call(tx.unroll, carg, n, dict(state_io))
+            ctx.unchanged("unroll", carg, spec)
             if e is not None:
                 ctx.side("unroll-raises", False, f"unroll:raises:{type(e).__name__}", f"unroll raised {e!r}", det)
                 continue
@@ -163,10 +165,12 @@ def do_seq(ctx, tx, cid, p, NS):
     else:
         init = {f: "x01"[i % 3] for i, f in enumerate(flops)}
     ctx.sample({"case": cid, "circuit": spec})
+    shared = build(spec)  # the SAME circuit object is unrolled for every n (a call must not disturb the next one)
     for n in NS:
         det = {"case": cid, "circuit": spec, "n": n, "add_flop_outputs": afo, "initial_values": init, "remove_unloaded": ru, "ignore_pins": clkpins if ign else None}
-        res, e = call(tx.sequential_unroll, build(spec), n, dport, qport, ignore_pins=(clkpins if ign else None), add_flop_outputs=afo,
+        res, e = call(tx.sequential_unroll, shared, n, dport, qport, ignore_pins=(clkpins if ign else None), add_flop_outputs=afo,
                       initial_values=(dict(init) if isinstance(init, dict) else init), remove_unloaded=ru)
+        ctx.unchanged("sequential_unroll", shared, spec)
         if e is not None:
             ctx.side("sequnroll-raises", False, f"sequential_unroll:raises:{type(e).__name__}", f"sequential_unroll raised {e!r}", det)
             continue
